@@ -141,8 +141,10 @@ def referenced(rules: dict) -> list[str]:
     return names
 
 
-def ser_rules(rules: dict, uprops: set | None = None) -> str:
-    names = referenced(rules)
+def ser_rules(rules: dict, uprops: set | None = None, also: set | None = None) -> str:
+    """`also`: names to print even if this table no longer refers to them (the optimized table is compared with the model's,
+    which keeps every rule of the un-optimized table it was given, e.g. a built-in whose only reference sat inside e{,0})"""
+    names = list(referenced(rules)) + [n for n in (also or ()) if n in rules]
     # dictionary order of Parser.rules
     order = [n for n in rules if n in set(names)]
     out = [str(len(order))]
